@@ -77,6 +77,7 @@ def covered_code_changes(ck):
             ff = front_facts.generate()
             ck.cov["generated_recursive_functions"] = ff["recursive"]
             ck.cov["generated_intro_facts"] = ff["intro_facts"]
+            ck.cov["generated_process_dependent_calls"] = ff["process_dependent"]
         except Exception as e:  # noqa: BLE001
             ck.broken("translator", "translator/front_facts.py could not read src/spox", f"{type(e).__name__}: {e}")
         ck.cov["generated_build_statements"] = info["ir"]
@@ -428,6 +429,38 @@ def chain_requests(prog):
         reqs.append({"inputs": [[f"x{j}", a] for j, a in enumerate(args) if a != used[0]], "outputs": [["y", out]],
                      "drop": drop, "kind": "chain-missing"})
     return reqs
+
+
+def gen_wide_program(rng: random.Random, n_args=120):
+    """Size in breadth: `n_args` arguments (a sixth of them unused), one value per used argument, all of
+    them summed; requests with > 100 inputs and > 50 outputs (names x0..x119: `x100` < `x2` as strings)."""
+    g = _Gen(rng, 1)
+    top = [g.new({"k": "arg", "ty": gen_type(rng)}) for _ in range(n_args)]
+    args = [n["id"] for n in top]
+    used = [a for a in args if rng.random() < 0.85]
+    lifts = []
+    for a in used:
+        top.append(g.new({"k": "lift", "a": a}))
+        lifts.append(top[-1]["id"])
+    acc = lifts[0]
+    for l in lifts[1:]:
+        top.append(g.new({"k": "add", "a": acc, "b": l}))
+        acc = top[-1]["id"]
+    prog = {"nodes": top, "n": g.n, "wide": n_args}
+    reqs = []
+    for drop in (False, True):
+        order = list(args)
+        rng.shuffle(order)
+        outs = [["y", acc]] + [[f"o{j}", l] for j, l in enumerate(rng.sample(lifts, min(60, len(lifts))))]
+        reqs.append({"inputs": [[f"x{j}", a] for j, a in enumerate(order)], "outputs": outs, "drop": drop, "kind": "wide"})
+        miss = rng.choice(used)
+        reqs.append({"inputs": [[f"x{j}", a] for j, a in enumerate(order) if a != miss], "outputs": outs[: rng.randrange(1, 5)],
+                     "drop": drop, "kind": "wide-missing"})
+    # outputs that need only a few of the many inputs
+    few = rng.sample(lifts, 3)
+    reqs.append({"inputs": [[f"x{j}", a] for j, a in enumerate(args)], "outputs": [[f"r{j}", l] for j, l in enumerate(few)],
+                 "drop": True, "kind": "wide-few"})
+    return prog, reqs
 
 
 def gen_long_name_program(rng: random.Random, depth=None):
